@@ -247,6 +247,8 @@ func runC20(p *Prog, r *Report) {
 
 	checkLoader(p, r)
 	checkSortedIDs(p, r)
+	// document order of a loaded list (and with it the policy<n> ids) must not depend on goroutine completion order
+	checkScheduleOrderAs(p, r, p.c14Reach(), "R20.6-schedule-order")
 	r.Floor("R20.1-state", 8)
 	r.Floor("R20.2-no-alias", 8)
 	r.Floor("R20.3-loader", 4)
